@@ -87,11 +87,11 @@ def process(d, pid, variant):
 def main():
     dirs = sys.argv[1:] or sorted(glob.glob('/tmp/mut-*/OUT/[AB]'))
     for d in dirs:
-        m = re.search(r'mut([23]?)-(c\d+)/OUT/([AB])', d)
+        m = re.search(r'mut([234]?)-(c\d+)/OUT/([AB])', d)
         if not m or not os.path.exists(f'{d}/patch.diff'):
             continue
-        # round 2 (worktrees /tmp/mut2-*) is filed as variants C and D, round 3 (/tmp/mut3-*) as E and F
-        variant = {'': {'A': 'A', 'B': 'B'}, '2': {'A': 'C', 'B': 'D'}, '3': {'A': 'E', 'B': 'F'}}[m.group(1)][m.group(3)]
+        # round 2 (worktrees /tmp/mut2-*) is filed as variants C and D, round 3 (/tmp/mut3-*) as E and F, round 4 (/tmp/mut4-*) as G and H
+        variant = {'': {'A': 'A', 'B': 'B'}, '2': {'A': 'C', 'B': 'D'}, '3': {'A': 'E', 'B': 'F'}, '4': {'A': 'G', 'B': 'H'}}[m.group(1)][m.group(3)]
         process(d, m.group(2).upper(), variant)
 
 main()
